@@ -28,11 +28,14 @@ XBroken == {"file_unknown_key", "file_path_wrong_type", "file_append_wrong_type"
             "policy_unknown_key", "policy_unknown_kind", "trigger_unknown_key", "trigger_unknown_kind", "trigger_neg_limit",
             "trigger_bad_unit", "roller_unknown_key", "roller_unknown_kind", "roller_neg_count", "roller_no_count",
             "roller_no_braces", "console_bad_target", "unknown_kind", "unknown_kind_with_filter", "file_no_path_with_filter",
-            "time_zero_interval", "time_huge_interval"}
+            "time_zero_interval", "time_huge_interval",
+            \* a `kind` that is present but not a string is as broken as an unknown one - at every level below the appender
+            "enc_kind_wrong_type", "policy_kind_wrong_type", "trigger_kind_wrong_type", "roller_kind_wrong_type",
+            "enc_kind_null"}
 XVariants == XOk \cup XBroken
 DocVariants == {"ok", "doc_unknown_key", "root_unknown_key", "logger_unknown_key", "logger_no_level", "root_level_bad",
                 "logger_level_bad", "refresh_bad", "refresh_wrong_type", "appender_no_kind", "root_appenders_wrong_type",
-                "logger_additive_wrong_type"}
+                "logger_additive_wrong_type", "appender_kind_wrong_type", "filter_kind_wrong_type"}
 RootVariants == {"full", "no_level", "absent"}
 Refresh == {"none", "30s"}
 \* loggers: name -> [lvl (0..5), add ("none" | "true" | "false"), apps (seq over {"c", "x", "ghost"})]
@@ -64,7 +67,10 @@ Next == AddLogger \/ Finish
 \* root_level_default() and logger_additive_default() as the code has them
 RootLevelDefault == 4
 DocRejected(d) == \/ d.dv \in {"doc_unknown_key", "root_unknown_key", "root_level_bad", "refresh_bad", "refresh_wrong_type",
-                               "appender_no_kind", "root_appenders_wrong_type"}
+                               "appender_no_kind", "root_appenders_wrong_type",
+                               \* the kind of an appender or of a filter is read with the document (a typed field):
+                               \* a non-string there fails the whole document, unlike the kinds further down
+                               "appender_kind_wrong_type", "filter_kind_wrong_type"}
                   \/ (d.dv \in {"logger_unknown_key", "logger_no_level", "logger_level_bad", "logger_additive_wrong_type"} /\ Len(d.loggers) >= 1)
                   \/ (d.dv = "root_unknown_key" /\ d.root = "absent" /\ FALSE)
 XBuilds(d) == d.x \in XOk /\ d.x # "absent"
